@@ -70,19 +70,19 @@ pub fn after(value1: &Value, value2: &Value) -> Value {
 
 /// Returns `false` if any item is `false`, `true` if empty or all items are true, else `null`.
 pub fn all(values: &[Value]) -> Value {
-  if values.is_empty() {
-    return VALUE_TRUE;
-  }
+  let mut all_true = true;
   for value in values {
-    if let Value::Boolean(v) = value {
-      if !v {
-        return VALUE_FALSE;
-      }
-    } else {
-      return value_null!();
+    match value {
+      Value::Boolean(false) => return VALUE_FALSE,
+      Value::Boolean(true) => {}
+      _ => all_true = false,
     }
   }
-  VALUE_TRUE
+  if all_true {
+    VALUE_TRUE
+  } else {
+    value_null!()
+  }
 }
 
 /// Returns `true` if any item is `true`, `false` if empty or all items are `false`, else `null`.
